@@ -21,6 +21,11 @@
 (*   [id, kind, contents, expected, runs]; a run is the record described    *)
 (*   in AppImageProps plus hashes = [img, ok, digest] printed by the run.   *)
 (*   step k judges run k.                                                   *)
+(* kind "auth": repeated `signapp message` invocations in one directory.    *)
+(*   [id, kind, contents, expected, steps]; a step is the record described  *)
+(*   in AppImageProps section 3 (hash = the embedded hash as Seq(0..255)).  *)
+(*   step k judges invocation k: what it printed / what the -o path holds   *)
+(*   right after it must embed the hash of the image given to it.           *)
 (* Clauses named "Machinery:..." say that the harness (writer, oracle) and  *)
 (* the specification disagree -- never a verdict about the code.            *)
 EXTENDS AppImageProps, TraceLib
@@ -30,7 +35,8 @@ tvars == <<tid, l, obs, bad, note>>
 
 T == Traces[tid]
 IsLayout == T.kind = "layout"
-Last == IF IsLayout THEN Len(T.reports) ELSE Len(T.runs)
+IsAuth   == T.kind = "auth"
+Last == IF IsLayout THEN Len(T.reports) ELSE IF IsAuth THEN Len(T.steps) ELSE Len(T.runs)
 
 TInit == /\ tid \in 1..Len(Traces) /\ obs = InitObs /\ bad = "" /\ note = ""
          /\ l = IF Traces[tid].kind = "layout" THEN 0 ELSE 1
@@ -67,6 +73,9 @@ Step == /\ bad = "" /\ l <= Last
            THEN /\ bad' = FirstFail(IF l = 0 THEN StructClauses ELSE ReportClauses(T.reports[l]))
                 /\ obs' = obs
                 /\ note' = IF l = 0 THEN DriftNote ELSE note
+           ELSE IF IsAuth
+           THEN /\ bad' = FirstFail(AuthClauses(T.steps[l], T.expected[T.contents[T.steps[l].img]]))
+                /\ obs' = obs /\ note' = note
            ELSE /\ bad' = FirstFail(SessionClauses(obs, T.runs[l]))
                 /\ obs' = ObserveRun(obs, RunOf(T.runs[l]))
                 /\ note' = note
